@@ -433,3 +433,32 @@ package lnwallet
 //@   let debit = ite(addH == 0, swrap(entry.Amount, 64), 0)
 //@   loop 3 step balanceDeltas.Local == swrap(prev(balanceDeltas.Local) - ite(party == lntypes.Local, debit, 0), 64) &&
 //@        balanceDeltas.Remote == swrap(prev(balanceDeltas.Remote) - ite(party == lntypes.Remote, debit, 0), 64)
+//@
+//@ extern func lnwire.NewMSatFromSatoshis
+//@   ensures result == wrap(sat * 1000, 64)
+//@
+//@ func (lc *LightningChannel) computeView
+//@   props C01
+//@   requires view != nil
+//@   loop * havoc
+//@   let isInit = old(lc.channelState.IsInitiator)
+//@   let our0 = old(ret(tip, 0).ourBalance)
+//@   let their0 = old(ret(tip, 1).theirBalance)
+//@   let fee2 = old(ret(tip, 2).fee)
+//@   let fee3 = old(ret(tip, 3).fee)
+//@   let dl = retn(evaluateHTLCView, 2).Local
+//@   let dr = retn(evaluateHTLCView, 2).Remote
+//@   site call evaluateHTLCView: assert arg(1) == view && arg(2) == whoseCommitChain && arg(3) == wrap(ret(tip, 4).height + 1, 64)
+//@   site call tip: assert arg(0) == ite(whoseCommitChain == lntypes.Remote, old(lc.commitChains.Remote), old(lc.commitChains.Local))
+//@   site return nil as ours: assert (our0 <= 1<<61 && -(1<<61) <= dl && dl <= 1<<61 && (isInit ==> fee2 <= 1<<50 && fee2 >= 0)) ==>
+//@        result0 == our0 + ite(isInit, fee2 * 1000, 0) + dl
+//@   site return nil as theirs: assert (their0 <= 1<<61 && -(1<<61) <= dr && dr <= 1<<61 && (!isInit ==> fee3 <= 1<<50 && fee3 >= 0)) ==>
+//@        result1 == their0 + ite(isInit, 0, fee3 * 1000) + dr
+//@   site return nil as nonneg: assert result0 < 1<<63 && result1 < 1<<63
+//@   site call HtlcIsDust nth 0: assert arg(0) == lc.channelState.ChanType && !arg(1) && arg(2) == whoseCommitChain &&
+//@        arg(5) == ite(whoseCommitChain == lntypes.Remote, old(lc.channelState.RemoteChanCfg.DustLimit), old(lc.channelState.LocalChanCfg.DustLimit))
+//@   site call HtlcIsDust nth 1: assert arg(0) == lc.channelState.ChanType && arg(1) && arg(2) == whoseCommitChain &&
+//@        arg(5) == ite(whoseCommitChain == lntypes.Remote, old(lc.channelState.RemoteChanCfg.DustLimit), old(lc.channelState.LocalChanCfg.DustLimit))
+//@   loop 2 step totalHtlcWeight == wrap(prev(totalHtlcWeight) + ite(ret(HtlcIsDust, 0), 0, input.HTLCWeight), 64)
+//@   loop 3 step totalHtlcWeight == wrap(prev(totalHtlcWeight) + ite(ret(HtlcIsDust, 1), 0, input.HTLCWeight), 64)
+//@   site return nil as weight: assert result2 == wrap(ret(CommitWeight) + totalHtlcWeight, 64) && result3 == retn(evaluateHTLCView, 0)
